@@ -1148,6 +1148,7 @@ func main() {
 	n := flag.Int("n", 100, "")
 	maxNodes := flag.Int("maxnodes", 12, "")
 	schedFile := flag.String("sched", "", "model-supplied schedules: lines `<params> <t1.t2...>`")
+	corpusFile := flag.String("corpus", "", "past failures (same format), run first")
 	replay := flag.String("replay", "", "json: {params, mode, schedule|cpus}")
 	fixedParams := flag.String("params", "", "stress child: run this graph every time")
 	dumpJobs := flag.Bool("dumpjobs", false, "print the controlled jobs of this tier and seed instead of running them")
@@ -1194,22 +1195,30 @@ func main() {
 	var jobs []job
 	sizes := map[int]int{}
 
-	// 1. model-supplied schedules (shortest traces to abstract states of small graphs)
-	if *schedFile != "" {
-		f, err := os.Open(*schedFile)
-		if err == nil {
-			sc := bufio.NewScanner(f)
-			sc.Buffer(make([]byte, 1<<20), 1<<26)
-			for sc.Scan() {
-				fs := strings.Fields(sc.Text())
-				if len(fs) == 2 {
-					jobs = append(jobs, job{Stream: "runner.model", Params: fs[0], Strat: "guide", Guide: fs[1], Seed: rg.next()})
-				}
-			}
-			f.Close()
+	// 0. the corpus of past failures, 1. model-supplied schedules (shortest traces to states of small graphs)
+	readScheds := func(path, stream string) int {
+		n := 0
+		if path == "" {
+			return 0
 		}
+		f, err := os.Open(path)
+		if err != nil {
+			return 0
+		}
+		defer f.Close()
+		sc := bufio.NewScanner(f)
+		sc.Buffer(make([]byte, 1<<20), 1<<26)
+		for sc.Scan() {
+			fs := strings.Fields(sc.Text())
+			if len(fs) == 2 {
+				jobs = append(jobs, job{Stream: stream, Params: fs[0], Strat: "guide", Guide: fs[1], Seed: rg.next()})
+				n++
+			}
+		}
+		return n
 	}
-	p.stats["model_schedules"] = len(jobs)
+	p.stats["corpus_cases"] = readScheds(*corpusFile, "runner.corpus")
+	p.stats["model_schedules"] = readScheds(*schedFile, "runner.model")
 
 	// 2. fixed shapes x caps x random and PCT schedules
 	reps := 6
